@@ -1,0 +1,14 @@
+//go:build verif
+
+// Contracts for package execext, read by /verif/bin/gvc (contract-based deductive verification).
+// This file contains comments only; it is compiled only under the build tag "verif".
+package execext
+
+// RunCommand runs a user command in the shell interpreter and returns after the command has exited
+// (assumed: mvdan/sh). What the user's command does to the file system is outside every property; it does
+// not touch Task's in-memory data.
+//@ func RunCommand
+//@   trusted
+//@   blocks
+//@   modifies heap
+//@   preserves $RUNDATA
